@@ -121,19 +121,12 @@ def run(ctx):
     ctx.sample(heavy[-1])
 
     # code -> spec: random schemas / values (trace lines validated by SchemaTrace) and hostile values
-    accepted, rejected, direct_bad, total = base.random_traces(ctx, 40000 if thorough else 4000, 5, "c04", "C04")
+    accepted, rejected, direct_bad, total = base.random_traces(ctx, 100000 if thorough else 12000, 5, "c04", "C04")
     ctx.traces += accepted
     ctx.extra["random_trace_lines"] = total
     ctx.extra["random_trace_lines_rejected_owned_by_C02"] = len(rejected)
-    # panics met by the random driver: re-run as ordinary vectors (localisation, uniform signatures)
-    again = [m["detail"]["case"] for m in direct_bad if m["sig"].get("divergence") == "panic" and m["detail"].get("case")]
-    for m in direct_bad:
-        if m["sig"].get("divergence") in ("died", "hang") or (m["sig"].get("divergence") == "panic" and not m["detail"].get("case")):
-            ctx.violation(sig_c04(m["sig"]), dict(case=m["detail"].get("case"), detail=m["detail"], statement=STATEMENT))
-    if again:
-        apath = os.path.join(ctx.tmp, "rand-panics.ndjson")
-        common.write_ndjson(apath, again)
-        consume_c04(ctx, [json.dumps(c) for c in again], base.run_driver(ctx, apath, "rand-panics", jobs=4))
+    # panics met by the random driver: re-run as their own cases (localisation, uniform signatures)
+    base.rerun_direct(ctx, direct_bad, "c04", consume_c04)
     ctx.assumptions += [
         "generated schemas are well-formed (SchemaAST!WF); mis-built schemas may panic by contract",
         "Unserialize / data-mode ValidateCompatibility are held to totality on decoder-producible values (Values!Decodable: no "
